@@ -3,6 +3,7 @@
    256 two-digit hex forms, possessive = atomic for the whole quantifier family on a fixed atom,
    and — unbounded — a (?#...) comment of any length without ')' or '\' is skipped. *)
 From FR Require Import Base Utf8 Ast Analyze Parse.
+From FR Require Import WsProofs.
 From Coq Require Import Lia.
 
 Definition tree_of (s : list nat) : option expr :=
@@ -95,8 +96,46 @@ Proof.
     do 50 (destruct b as [|b]; [exact Hrec|]). destruct b as [|b]; [congruence|]. exact Hrec.
 Qed.
 
+(* unbounded: under (?x) a run of whitespace of ANY length n is skipped at a token boundary, up
+   to the end of the pattern or the first byte that is neither whitespace nor the start of a
+   comment; without (?x) the position does not move *)
+Theorem C19_whitespace_skipped : forall re fl, f_space fl = true -> forall n ix fuel,
+  (forall k, k < n -> exists b, nth_error re (ix + k) = Some b /\ is_ws b = true) ->
+  (ix + n = length re \/
+   exists b, nth_error re (ix + n) = Some b /\ is_ws b = false /\ b <> 35 /\ b <> 40) ->
+  n < fuel ->
+  optional_whitespace re fuel fl ix = POk (ix + n).
+Proof. exact whitespace_skipped. Qed.
+Theorem C19_whitespace_kept : forall re fl, f_space fl = false -> forall ix fuel b,
+  nth_error re ix = Some b -> b <> 40 -> optional_whitespace re (S fuel) fl ix = POk ix.
+Proof. exact whitespace_kept. Qed.
+(* a '#' comment under (?x) runs to the first newline (find_nl_spec) or to the end *)
+Theorem C19_line_comment_skipped : forall re fl, f_space fl = true -> forall ix fuel x,
+  nth_error re ix = Some 35 -> find_nl (skipn ix re) = Some x ->
+  optional_whitespace re (S fuel) fl ix = optional_whitespace re fuel fl (ix + x + 1).
+Proof. exact line_comment_skipped. Qed.
+Theorem C19_line_comment_to_end : forall re fl, f_space fl = true -> forall ix fuel,
+  nth_error re ix = Some 35 -> find_nl (skipn ix re) = None ->
+  optional_whitespace re (S fuel) fl ix = POk (length re).
+Proof. exact line_comment_to_end. Qed.
+Theorem C19_first_newline : forall l x, find_nl l = Some x ->
+  nth_error l x = Some 10 /\ forall k, k < x -> nth_error l k <> Some 10.
+Proof. exact find_nl_spec. Qed.
+
+(* non-vacuity: "a \t\n b" under (?x): three bytes of whitespace after 'a' are skipped *)
+Example ex_ws :
+  optional_whitespace [97; 32; 9; 10; 98] 7
+    {| f_casei := false; f_multi := false; f_dotnl := false; f_swap := false; f_space := true; f_unicode := true |} 1
+  = POk 4.
+Proof. vm_compute. reflexivity. Qed.
+
 Print Assumptions C19_escape_table.
 Print Assumptions C19_hex_forms.
 Print Assumptions C19_possessive_is_atomic.
 Print Assumptions C19_comment_skipped.
 Print Assumptions C19_possessive_is_atomic_swap_greed.
+Print Assumptions C19_whitespace_skipped.
+Print Assumptions C19_whitespace_kept.
+Print Assumptions C19_line_comment_skipped.
+Print Assumptions C19_line_comment_to_end.
+Print Assumptions C19_first_newline.
